@@ -301,3 +301,20 @@ Proof.
     unfold imag_tail. change (lt_imag_suffix lt_i64) with false. cbv iota.
     change (conv_i64 (LNum (c :: cs) false)) with (parse_i64 (c :: cs)). rewrite Hp. reflexivity.
 Qed.
+
+(** ** eval_number: a digit string without a point is Integer of exactly that value, or Err when it exceeds i64::MAX
+    (it is never silently turned into a Float) -- end to end *)
+Theorem number_integer_literal_run (L : libm) (p : number) ds :
+  ds <> [] -> forallb is_digit ds = true ->
+  run_num L ds p = match parse_i64 ds with Some z => Ok (Int z) | None => Err end.
+Proof.
+  intros Hne Hd. destruct (parse_i64 ds) as [z|] eqn:Hp.
+  - unfold run_num, run, ast_of. rewrite (tokens_digits_num ds z Hne Hd Hp). reflexivity.
+  - unfold run_num, run, ast_of, tokens_of, tokenize_all. rewrite (strip_digits ds Hd).
+    destruct ds as [|c cs]; [congruence|].
+    pose proof Hd as Hd'. cbn [forallb] in Hd'. apply andb_true_iff in Hd'. destruct Hd' as [Hc Hcs].
+    cbn [length tokenize]. unfold lex_step. rewrite Hc.
+    change (lt_mode lt_number) with FloatOnePoint. cbv iota. rewrite (span_onepoint_digits cs false Hcs).
+    unfold imag_tail. change (lt_imag_suffix lt_number) with false. cbv iota.
+    unfold conv_num. rewrite (digits_no_point (c :: cs) Hd), Hp. reflexivity.
+Qed.
